@@ -165,6 +165,14 @@ def d_c18_week53():
     assert inr('0004-W53') and not inr('0005-W53') and inr('10000-W52')
 
 
+def d_c18_value_shapes():
+    import soupsieve as sv
+    s = soup('<input id="a" type="number" min="5\n" value="1"><input id="b" type="number" min="1e1" value="5">'
+             '<input id="c" type="time" min="10:00\n" value="09:00"><input id="d" type="date" max="2000-01-01\n" '
+             'value="2001-01-01"><input id="e" type="number" max="2.5E-1" value="1">')
+    assert ids(sv.select(':out-of-range', s)) == ['b', 'e'], ids(sv.select(':out-of-range', s))
+
+
 def d_c04_lang_cache():
     import soupsieve as sv
     s = soup('<html><head></head><body><p id="a">1</p><p id="b">2</p></body></html>')
